@@ -1,6 +1,7 @@
 /- Line-protocol driver for C07 (composite fonts).  Model ops answer what the code does, spec ops
 what the property demands; see tools/harness/props/c07.py for the wire formats. -/
 import PdfVerif.Spec.CIDFont
+import PdfVerif.Model.TrueTypeCmap
 
 open PdfVerif PdfVerif.CIDFont PdfVerif.CIDFontSpec
 
@@ -248,6 +249,12 @@ def step (st : DState) (line : String) : DState × String :=
         | .none => "S none"
         | .collection c v => "S coll:" ++ c ++ ":" ++ (if v then "V" else "H")
       | _, _, _, _ => "bad-op")
+  | ["ttf", h] =>
+    (st, match bytesOfHex h with
+      | some b => match TrueType.createUnicodeMap b with
+        | .ok m => showUMap m
+        | .error e => "E " ++ e.name
+      | none => "bad-op")
   | "gw" :: dw :: cid :: ws =>
     (st, match (if dw == "-" then some none else (parseNum dw).map (fun n => some n.1)), cid.toNat?, parseWElems ws with
       | some dw, some cid, some es => "R " ++ ratToString (glyphWidth (getWidths es) dw cid)
